@@ -207,6 +207,21 @@ func (u *Unit) sigObjectModel(st *State, fr *Frame, in *ssa.Call, recv IfaceV, m
 		}
 		return IfaceV{Nil: v, Opq: u.newInt("verr")}, true
 	case m.Name() == "Sign" && sig.Params().Len() == 1 && isBytes(sig.Params().At(0).Type()) &&
+		sig.Results().Len() == 2 && isBytes(sig.Results().At(0).Type()) && hasOwner && isDepEd25519Priv(owner):
+		// A-DEP-ED25519 (read from go-i2p/crypto at the pinned version):
+		// Ed25519Signer.Sign(data) = crypto/ed25519.Sign(k, data), error iff len(k) != 64
+		kv, okk := depEd25519PrivBytes(u, st, owner)
+		if !okk {
+			return nil, false
+		}
+		u.Assumed["A-DEP-ED25519: go-i2p/crypto Ed25519Signer.Sign(data) == crypto/ed25519.Sign(key, data), error iff len(key) != 64"]++
+		a, o, l := u.seqOf(st, kv)
+		okb := Eq(l, IntLit(64))
+		out := u.freshSig(st, sig.Results().At(0).Type(), 64)
+		u.logSig(st, IntLit(7), seqRef{a, Add(o, IntLit(32)), IntLit(32)}, u.seqRefOf(st, args[0]), u.seqRefOf(st, out), okb)
+		nilOut := SliceV{Blk: IntLit(0), Off: IntLit(0), Len: IntLit(0), Cap: IntLit(0), Elem: types.Typ[types.Uint8]}
+		return TupleV{E: []Val{u.mergeVal(okb, out, nilOut), IfaceV{Nil: okb, Opq: u.newInt("serr")}}}, true
+	case m.Name() == "Sign" && sig.Params().Len() == 1 && isBytes(sig.Params().At(0).Type()) &&
 		sig.Results().Len() == 2 && isBytes(sig.Results().At(0).Type()):
 		// the signature is valid under the public half of the signer's key
 		okb := u.newBool("signok")
@@ -362,4 +377,28 @@ func (u *Unit) isHash(st *State, h Val, data Val, goal bool) *Term {
 		return u.newBool("ishash_unknown")
 	}
 	return Or(alts...)
+}
+
+func isDepEd25519Priv(k IfaceV) bool {
+	if k.Dyn == nil {
+		return false
+	}
+	n := k.Dyn.String()
+	return n == "github.com/go-i2p/crypto/ed25519.Ed25519PrivateKey" || n == "*github.com/go-i2p/crypto/ed25519.Ed25519PrivateKey"
+}
+
+// depEd25519PrivBytes: the key bytes of a go-i2p/crypto Ed25519PrivateKey (a
+// named []byte, possibly behind a pointer).
+func depEd25519PrivBytes(u *Unit, st *State, k IfaceV) (Val, bool) {
+	switch v := k.V.(type) {
+	case SliceV:
+		return v, true
+	case PtrV:
+		if v.Cell != nil {
+			if sv, ok := u.loadPath(st, v).(SliceV); ok {
+				return sv, true
+			}
+		}
+	}
+	return nil, false
 }
